@@ -69,6 +69,12 @@ let strip_key k =
   let s = implode k in
   if String.length s > 0 && s.[0] = '/' then String.sub s 1 (String.length s - 1) else "!" ^ s
 
+(* C07_FIXES=pop,nullref switches the model to the repaired code (fixes/C07-*.diff) *)
+let fx =
+  let e = try Sys.getenv "C07_FIXES" with Not_found -> "" in
+  let has w = List.mem w (String.split_on_char ',' e) in
+  { fx_pop = has "pop"; fx_nullref = has "nullref" }
+
 let () =
   let table = Hashtbl.create 1024 in
   let ic = open_in Sys.argv.(1) in
@@ -124,7 +130,7 @@ let () =
                (match !origin with
                 | None -> emit "U=-"
                 | Some m0 ->
-                  (match has_unresolved_imports (scan_fuel !fs !st m0) !st m0 with
+                  (match has_unresolved_imports fx (scan_fuel !fs !st m0) !st m0 with
                    | Ok b -> emit (if b then "U=1" else "U=0")
                    | Crash -> emit "U=CRASH(null)"
                    | OutOfFuel -> emit "U=CRASH(fuel)"))
@@ -132,7 +138,7 @@ let () =
                (match !origin with
                 | None -> emit "F=-"
                 | Some m0 ->
-                  (match flatten_precheck (scan_fuel !fs !st m0) !st m0 with
+                  (match flatten_precheck fx (scan_fuel !fs !st m0) !st m0 with
                    | Ok (b, st') -> emit (Printf.sprintf "F=%s I=%s" (if b then "model" else "null") (issues_text st' m0))
                    | Crash -> emit "F=CRASH(null)"
                    | OutOfFuel -> emit "F=CRASH(fuel)"))
